@@ -84,7 +84,7 @@ func c01Scenario(r *vf.Run, t *testing.T, id string, rng *rand.Rand, g genOpts, 
 				gates[i] = e.H.NewGate()
 				pl.Gate = gates[i]
 			}
-			e.H.Plans[q.Tag] = &pl
+			e.H.SetPlan(q.Tag, &pl)
 		}
 		// units
 		data := make([][]unit, p.K)
